@@ -328,5 +328,3 @@ def replay(ck, path):
     res = runner.run_batch(exe, [("replay", lines)])
     print("\n".join(res["replay"]["out"]))
     ck.evaluations = 1
-    ck.nontriv(1)
-    ck.nontriv(2)
